@@ -7,7 +7,7 @@ From Coq Require Import Reals.
 From Coquelicot Require Import Coquelicot.
 From Coq Require Import Sorted Lra.
 From Exmex.Spec Require Import RefSem.
-From Exmex.Proofs Require Import Vars DeepSem DeepSubs C11Main DeepOps NormalForm Hereditary ConvertCompose RuleAnalysis RealCarrier CalcSem Dual PartialCorrect PartialRuled RemoveLoop Unparse PartialTotal PartialMain FlatPartial.
+From Exmex.Proofs Require Import Vars DeepSem DeepSubs C11Main DeepOps NormalForm Hereditary ConvertCompose RuleAnalysis RealCarrier CalcSem Dual PartialCorrect PartialRuled RemoveLoop Unparse PartialTotal PartialMain FlatPartial ParseAny.
 Import ListNotations.
 Open Scope nat_scope.
 
@@ -130,6 +130,15 @@ Theorem C05_parsed_expressions_qualify :
   forall c : chain (D:=R), wf_chain float_table c = true ->
   exists e, parse_deep_tokens Rc float_table (flatten c) = Ok e /\ dvars e = find_parsed_vars (flatten c) /\ built e.
 Proof. exact parsed_built. Qed.
+(* ... and by the deep parse of ANY token list the parser accepts (also sloppy input): it is built, lists the variables
+   of the tokens and records only unary operators in its unary stacks (the premise of C05_differentiation_succeeds) *)
+Theorem C05_every_parsed_expression_qualifies :
+  forall (ts : list (token R)) (e : deepex R),
+  parse_deep_tokens Rc float_table ts = Ok e -> dvars e = find_parsed_vars ts /\ built e /\ uok float_table e.
+Proof.
+  intros ts e H. destruct (parsed_any Rc float_table ts e H) as (Hv & Hw & Hh & Hn & Hu).
+  split; [exact Hv|]. split; [|exact Hu]. split; [exact Hw|]. split; [exact Hh|exact Hn].
+Qed.
 Theorem C05_consistent_expressions_qualify :
   forall e : deepex R, StronglySorted str_lt (dvars e) -> dconsistent (tflagged float_table) (dvars e) e -> nf e -> built e.
 Proof. exact consistent_built. Qed.
@@ -227,6 +236,7 @@ Print Assumptions C05_binary_rules_are_derivatives_partial.
 Print Assumptions C05_partial_is_the_derivative.
 Print Assumptions C05_partial_evaluates_to_the_derivative.
 Print Assumptions C05_parsed_expressions_qualify.
+Print Assumptions C05_every_parsed_expression_qualifies.
 Print Assumptions C05_consistent_expressions_qualify.
 Print Assumptions C05_derivatives_qualify.
 Print Assumptions C05_flat_partial_is_the_derivative.
